@@ -34,7 +34,40 @@ use crate::framework::*;
 use crate::prng::{Prng, TraceHash};
 use crate::world::{ConnectMode, SchedCfg, World, MS, SEC};
 
+#[path = "c12_net.rs"]
+pub mod c12_net;
+#[path = "c12_netmodel.rs"]
+pub mod c12_netmodel;
+
 pub struct C12;
+
+/// one seed in `NET_EVERY` is a traffic-tier plan (real worker, `c12_net.rs`); the others are model-tier plans
+const NET_EVERY: u64 = 40;
+
+fn is_net(plan: &Value) -> bool { plan.get("net").is_some() }
+
+fn run_net(plan: &Value, verbose: bool) -> (RunReport, String) {
+    let p: c12_net::NetPlan = match serde_json::from_value(plan["net"].clone()) { Ok(p) => p, Err(e) => return (RunReport { harness_error: Some(format!("bad traffic plan: {e}")), ..Default::default() }, String::new()) };
+    let (o, side) = c12_net::run(&p, verbose);
+    let j = c12_netmodel::judge(&p, &o, &side, verbose);
+    let mut h = TraceHash::new();
+    h.mix(o.trace_hash);
+    for v in &j.violations { h.mix_bytes(v.class.as_bytes()); h.mix_bytes(v.key.as_bytes()); }
+    let mut rep = RunReport { seed: p.seed, family: p.family.clone(), violations: j.violations, trace_hash: h.0, nontrivial: j.nontrivial, stats: o.stats.clone(), probes: j.probes, summary: c12_net::summarize(&p), ..Default::default() };
+    rep.probes.insert("traffic_plans".into(), 1);
+    if let Some(e) = &o.boot_error { rep.harness_error = Some(format!("worker boot failed: {e}")); }
+    if let Some(e) = j.harness { rep.harness_error = Some(e); }
+    let mut text = String::new();
+    if verbose {
+        text = c12_net::summarize(&p) + "\n";
+        for l in &o.log { text += l; text.push('\n'); }
+        text += "---- oracle\n";
+        for l in &j.log { text += l; text.push('\n'); }
+        for v in &rep.violations { text += &format!("VIOLATION {} {}: {}\n", v.class, v.key, v.detail); }
+        if let Some(e) = &rep.harness_error { text += &format!("HARNESS-ERROR {e}\n"); }
+    }
+    (rep, text)
+}
 
 const MAX_TRIES: usize = 6; // Backend::new -> ExponentialBackoffPolicy::new(6) (doc/configure.md: "default 6")
 const POLICIES: [&str; 7] = ["round_robin", "random", "least_loaded", "power_of_two", "hrw", "maglev", "default"];
@@ -934,8 +967,12 @@ pub fn execute(plan: &Plan, verbose: bool) -> Outcome {
 impl Property for C12 {
     fn id(&self) -> &'static str { "C12" }
     fn runs(&self, tier: Tier) -> u64 { match tier { Tier::Quick => 250_000, Tier::Thorough => 4_000_000 } }
-    fn gen_plan(&self, seed: u64, tier: Tier) -> Value { serde_json::to_value(generate(seed, tier)).unwrap() }
+    fn gen_plan(&self, seed: u64, tier: Tier) -> Value {
+        if seed % NET_EVERY == 0 { return serde_json::json!({ "net": c12_net::generate(seed, tier) }); }
+        serde_json::to_value(generate(seed, tier)).unwrap()
+    }
     fn run_plan(&self, plan: &Value) -> RunReport {
+        if is_net(plan) { return run_net(plan, false).0; }
         let p: Plan = match serde_json::from_value(plan.clone()) { Ok(p) => p, Err(e) => return RunReport { harness_error: Some(format!("bad plan: {e}")), ..Default::default() } };
         let o = execute(&p, false);
         let mut rep = RunReport { seed: p.seed, family: if p.family.starts_with("enum:") { p.family.clone() } else { family_of(&p) }, trace_hash: o.hash, nontrivial: o.nontrivial, probes: o.probes, summary: summarize(&p), ..Default::default() };
@@ -946,6 +983,10 @@ impl Property for C12 {
         rep
     }
     fn shrink(&self, plan: &Value) -> Vec<Value> {
+        if is_net(plan) {
+            let Ok(p) = serde_json::from_value::<c12_net::NetPlan>(plan["net"].clone()) else { return vec![] };
+            return c12_net::shrink(&p).into_iter().map(|q| serde_json::json!({ "net": q })).collect();
+        }
         let Ok(p) = serde_json::from_value::<Plan>(plan.clone()) else { return vec![] };
         let mut out: Vec<Plan> = Vec::new();
         let n = p.ops.len();
@@ -1004,9 +1045,11 @@ impl Property for C12 {
                 out.push(serde_json::to_value(p).unwrap());
             }
         }
+        for p in c12_net::enumerated() { out.push(serde_json::json!({ "net": p })); }
         out
     }
     fn debug_plan(&self, plan: &Value) -> String {
+        if is_net(plan) { return run_net(plan, true).1; }
         let Ok(p) = serde_json::from_value::<Plan>(plan.clone()) else { return "bad plan".into() };
         let o = execute(&p, true);
         let mut s = summarize(&p) + "\n";
@@ -1017,17 +1060,23 @@ impl Property for C12 {
     fn descr(&self) -> Descr {
         Descr {
             level: "exploration",
-            rule: "seeded operation histories (swarm: 1-2 clusters, 1-4 ids x 1-4 addresses, 0-2 cookie values, per-plan operation mix, weights incl. 0/negative/extreme, six policies, virtual-time steps of 1 ms..64 s) on one BackendMap; plus 30 enumerated core scenarios (5 per policy: health cascade, back-off window edges, cookies, removal with open connections + re-add, weights); a run is non-trivial when >=1 selection was judged while >=1 member of that cluster was outside the allowed set; distinct = distinct hashes of (operations with arguments, selections, final counters); a run stops at its first violating operation",
+            rule: "two tiers, chosen per seed (one seed in 40 is a traffic plan). MODEL TIER: seeded operation histories (swarm: 1-2 clusters, 1-4 ids x 1-4 addresses, 0-2 cookie values, per-plan operation mix, weights incl. 0/negative/extreme, six policies, virtual-time steps of 1 ms..64 s) on one BackendMap; plus 30 enumerated core scenarios (5 per policy: health cascade, back-off window edges, cookies, removal with open connections + re-add, weights); non-trivial when >=1 selection was judged while >=1 member of that cluster was outside the allowed set; a run stops at its first violating operation. TRAFFIC TIER (family net:*): one real worker on the H1 scenario; explicit timelines of 3-25 s (thorough: up to 70 s) of virtual time with 1-2 clusters of 2-5 backends (primaries/backups, weights, cookie values, six policies, optional address shared by both clusters), simulated servers that accept / accept after a delay / accept then close / refuse synchronously or after a delay / never answer / are unreachable and change at seeded times, master commands at seeded times (AddBackend at a new address, RemoveBackend incl. a wrong id, re-add at a removed address with another or the same id, in-place backup-flag update, AddCluster policy change with or without health check, SetHealthCheck, RemoveHealthCheck), health probes answered 200 / 500 / never / by a refusing or silent address with answers flipping at seeded times, 2-7 (thorough 2-11) clients sending 1-8 short requests each on a kept-alive connection with think times 0-2.5 s, optional cookie naming an existing / later removed / unknown member or a backend id; plus 32 enumerated traffic scenarios (per policy: removal with open keep-alive connections + re-add with another id, a refusing member through several back-off windows, backups behind a primary that fails and is removed, cookies, a member failing its health check and recovering; once: a healthy member whose probe answer is not UTF-8; once, least_loaded: a member that refuses, recovers and must be preferred to the one holding a kept-alive connection). Oracle: history-based and three-valued (see c12_netmodel.rs): every connect() made for a request must go to a member of the request's cluster that is in the allowed set in some admissible state at the instant of the connect (commands atomic inside [sent, acknowledged]; back-off definite for the first second after a failure and possible up to the largest wait the policy can draw; health from the probe answers the mocks produced); cookie holder wins when it definitely qualifies; under least_loaded/connections the chosen primary may not certainly hold more open connections (as the simulated network counts them) than a certainly qualifying primary; 503 only when the allowed set may be empty at some instant of the request's window or one of its connect attempts failed; 502/504 only after a backend fault; QueryMetrics gauges connections_per_backend / backend.connections / backend.pool.size / http.active_requests are zero (and not wrapped) 3 s after the last client left. Non-trivial traffic run: >=1 connect judged while >=1 member was definitely excluded (removed, in back-off, unhealthy, or a backup behind a qualifying primary). distinct = distinct hashes of (operations with arguments, selections, final counters) resp. of the simulator trace",
             assumptions: vec![
                 "release semantics (debug assertions off)",
-                "connect/stream/close bookkeeping on Backend (failures, retry_policy.fail/succeed, active_requests +/-) is replayed by the harness the way protocol/mux/mod.rs does it; only inc/dec_connections, try_connect, selection, membership, health and retry code are the real thing",
+                "model tier: connect/stream/close bookkeeping on Backend (failures, retry_policy.fail/succeed, active_requests +/-) is replayed by the harness the way protocol/mux/mod.rs does it; only inc/dec_connections, try_connect, selection, membership, health and retry code are the real thing",
                 "health-check results and removal are address keyed as in health_check.rs / server.rs (first member at the address; every member at the address)",
                 "several members sharing one cookie value is treated as ambiguous configuration: any qualifying holder, or normal selection when the holders disagree, is accepted",
                 "Maglev: a key may move when the full member set (not only the eligible set) changes, as documented for the table rebuild",
+                "traffic tier: AF_UNIX stands in for TCP; the worker acts on a network event within 2 ms of virtual time",
+                "traffic tier: a connect that never completes (connect_timeout) may or may not arm the back-off (doc/configure.md calls every connect failure a failure, the mux does not feed timeouts to the retry policy): both accepted",
+                "traffic tier: a server that accepts and closes at once may count as a failed or as a successful connect (depends on what the worker polls first): both accepted",
+                "traffic tier: RemoveHealthCheck leaves the last health marks in place (server.rs) while AddCluster without health_check resets them (backends.rs): modelled as coded, both documented in code comments only",
+                "traffic tier: probes are told from request connects by the epoll token range the health checker registers its sockets in (1<<24..); plans with health checks contain no synchronous connect failure (such a connect is never registered)",
+                "traffic tier: in a plan where a probed server answers with a body that is not UTF-8 every eligibility violation is reported under the key probe_answer_not_utf8 (one recorded defect, several symptoms)",
             ],
-            real: vec!["sozu_lib::backends::{BackendMap, BackendList, Backend, HealthState}", "sozu_lib::load_balancing::* (all six policies, seeded rand)", "sozu_lib::retry::ExponentialBackoffPolicy (virtual clock, seeded jitter)", "mio::net::TcpStream::connect through the simulated libc"],
-            stub: vec!["clock", "entropy", "network (connect answers only)", "sessions / mux bookkeeping (replayed by the harness)", "health checker (results injected)"],
-            not_covered: vec!["which mock backend receives bytes end-to-end and QueryMetrics counters (netsim traffic tier)", "mux/kawa_h1/tcp session code that calls into BackendMap", "load-quality of least_loaded / power_of_two choices (only membership in the allowed set is judged)"],
+            real: vec!["sozu_lib::backends::{BackendMap, BackendList, Backend, HealthState}", "sozu_lib::load_balancing::* (all six policies, seeded rand)", "sozu_lib::retry::ExponentialBackoffPolicy (virtual clock, seeded jitter)", "mio::net::TcpStream::connect through the simulated libc", "traffic tier: sozu_lib::server::Server::run with AddBackend/RemoveBackend/AddCluster/SetHealthCheck/RemoveHealthCheck handling, protocol::mux (router connect/retry, H1 backend connections, connect failure and success feeding the retry policy, counters and gauges on real session lifecycles), health_check::HealthChecker driven by the worker loop, metrics local drain + QueryMetrics"],
+            stub: vec!["clock", "entropy", "network (model tier: connect answers only; traffic tier: simulated addresses with scripted behaviour)", "model tier: sessions / mux bookkeeping (replayed by the harness), health checker (results injected)", "traffic tier: clients, backend servers, master"],
+            not_covered: vec!["affinity of HRW / Maglev on real traffic (the HTTP path selects without a key; affinity is judged in the model tier only)", "load quality of power_of_two and of the requests / connection_time metrics; Backend.active_requests (not exported; Backend.active_connections only through least_loaded choices)", "a request whose cookie differs from the one its kept-alive backend connection was opened with (connection reuse bypasses selection)", "HTTP/2, TLS, TCP and UDP listeners in the traffic tier (H1 only)", "h2c health probes (cluster.http2)", "two live ids at one address inside one cluster in the traffic tier (model tier only)", "requests left unanswered by a closed connection (C02); only a client that waits 120 s is flagged"],
         }
     }
 }
